@@ -11,7 +11,7 @@ VARIABLE req
 Metrics1 == {[fn |-> "count"]}
              \cup [fn : {"total", "avg", "min", "max", "count_unique", "count_field"}, f : NumFields]
              \cup [fn : {"count_unique", "min", "max", "count_field"}, f : CatFields]
-             \cup [fn : {"count_field", "total", "count_unique"}, f : OptFields]
+             \cup [fn : {"count_field", "total", "count_unique", "min", "max", "avg"}, f : OptFields]
 MetricLists == {<<m>> : m \in Metrics1} \cup {<<[fn |-> "count"], m>> : m \in Metrics1 \ {[fn |-> "count"]}}
                  \cup RandomSubset(40, {<<a, b>> : a \in Metrics1, b \in Metrics1})
 Bys == {<<>>} \cup {<<f>> : f \in CatFields \cup NumFields \cup OptFields}
